@@ -133,6 +133,15 @@ def rule_affine(ck):
     n = 0
     scope = [f for f in repo.all_functions() if "/tests/" not in f.module and ("/algorithms/" in f.module or f.qual.startswith(("SessionInfo.", "Interface.")))]
     for f in scope:
+        where = {}
+        try:
+            fl = flow_of(f)
+            for nd in fl.cfg.nodes:
+                for e_ in fl.cfg.node_exprs(nd):
+                    for x_ in [e_] + list(walk_local(e_)):
+                        where.setdefault(id(x_), nd)
+        except Exception:
+            fl = None
         for c in walk_local(f.node):
             def is_point(e):
                 return isinstance(e, ast.Attribute) and e.attr in POINTS
@@ -141,6 +150,8 @@ def rule_affine(ck):
                 if isinstance(c.op, (ast.Mult, ast.Div, ast.FloorDiv, ast.Mod, ast.Pow)) and (is_point(l) or is_point(r)):
                     # allowed: timedelta(...) * point  (affine map to wall-clock time)
                     other = r if is_point(l) else l
+                    if fl is not None and id(c) in where and isinstance(other, ast.Name):
+                        other = fl.expand(other, where[id(c)])        # a named duration: `step = timedelta(minutes=period); start + step * t`
                     if isinstance(c.op, ast.Mult) and isinstance(other, ast.Call) and call_name(other) == "timedelta":
                         n += 1
                         ck.holds("C10.R5", f, c, "affine map start + k*period")
